@@ -279,6 +279,108 @@ const A_DY: [f64; 8] = [-3.0, -1.0, -0.5, 0.0, 0.25, 1.0, 2.0, 1000.0];
 const A_ND: [f64; 6] = [0.1, 0.3, 1.1, 1e-3, 123.456, 1e10 + 0.1];
 const BV: [f64; 5] = [-2.0, 0.0, 0.25, 1.0, 1000.0];
 
+/// (v) results must not depend on what was computed before: the same list of calls is
+/// evaluated in forward, reverse and interleaved order on one thread (and once more on a
+/// fresh thread); every call must return bit-identical results in all of them. A producer
+/// that keeps hidden state between calls (a memo keyed too coarsely, a reused scratch
+/// buffer) shows up here.
+fn judge_order_independence(levels: &[f64], s: &mut Sink) {
+    let xs = vec![0.25, 1000.0, -3.0, 1.0, 0.1];
+    let pos = vec![0.25, 8.0, 3.7, 1.0];
+    let (pa, pb) = (vec![1.0, 2.5, 0.25, 7.0], vec![0.5, 3.0, 0.25]);
+    type Call = Box<dyn Fn(Kind, f64) -> String>;
+    fn show(r: Option<(Kind, f64, f64)>) -> String {
+        match r {
+            Some((k, a, b)) => format!("{}[{:016x},{:016x}]", k.name(), a.to_bits(), b.to_bits()),
+            None => "Err".to_string(),
+        }
+    }
+    let mk = move || -> Vec<(&'static str, Call)> {
+        let (xs1, pos1, pos2, pa1, pb1, pa2, pb2) = (xs.clone(), pos.clone(), pos.clone(), pa.clone(), pb.clone(), pa.clone(), pb.clone());
+        vec![
+            ("Arithmetic::ci", Box::new(move |k, l| show(sh(Arithmetic::<f64>::ci(conf(k, l), &xs1)))) as Call),
+            ("Geometric::ci", Box::new(move |k, l| show(sh(Geometric::<f64>::ci(conf(k, l), &pos1))))),
+            ("Harmonic::ci", Box::new(move |k, l| show(sh(Harmonic::<f64>::ci(conf(k, l), &pos2))))),
+            ("Paired::ci", Box::new(move |k, l| show(sh(Paired::<f64>::ci(conf(k, l), &pa1[..3].to_vec(), &pb1))))),
+            ("Unpaired::ci", Box::new(move |k, l| show(sh(Unpaired::<f64>::ci(conf(k, l), &pa2, &pb2))))),
+            ("proportion::ci(50,17)", Box::new(|k, l| show(sh(proportion::ci(conf(k, l), 50, 17))))),
+            ("proportion::ci(400,390)", Box::new(|k, l| show(sh(proportion::ci(conf(k, l), 400, 390))))),
+            ("ci_z_normal(80,30)", Box::new(|k, l| show(sh(proportion::ci_z_normal(conf(k, l), 80, 30))))),
+            ("ci_indices(57,0.3)", Box::new(|k, l| format!("{:?}", quantile::ci_indices(conf(k, l), 57, 0.3).ok()))),
+        ]
+    };
+    let calls = mk();
+    // the level grid plus close neighbours of every level (a level that went through f32,
+    // a relative step of 1e-9, the adjacent double): hidden state keyed approximately on
+    // the level would confuse them
+    let mut lv: Vec<f64> = vec![];
+    for &l in levels {
+        for c in [l, (l as f32) as f64, l * (1.0 - 1e-9), f64::from_bits(l.to_bits() + 1)] {
+            if c > 0.0 && c < 1.0 && !lv.contains(&c) {
+                lv.push(c);
+            }
+        }
+    }
+    let mut plan: Vec<(usize, Kind, f64)> = vec![];
+    for (i, _) in calls.iter().enumerate() {
+        for &l in &lv {
+            for k in KINDS {
+                plan.push((i, k, l));
+            }
+        }
+    }
+    let run = |order: &[usize]| -> Vec<(usize, String)> { order.iter().map(|&j| (j, (calls[plan[j].0].1)(plan[j].1, plan[j].2))).collect() };
+    let fwd: Vec<usize> = (0..plan.len()).collect();
+    let rev: Vec<usize> = fwd.iter().rev().cloned().collect();
+    // kinds innermost-first vs levels innermost-first vs a stride permutation
+    let mut by_kind: Vec<usize> = fwd.clone();
+    by_kind.sort_by_key(|&j| (plan[j].1, (plan[j].2 * 1e6) as u64, plan[j].0));
+    let stride: Vec<usize> = (0..plan.len()).map(|j| (j * 37) % plan.len()).collect();
+    let stride_ok = {
+        let mut t = stride.clone();
+        t.sort();
+        t.dedup();
+        t.len() == plan.len()
+    };
+    let base = run(&fwd);
+    s.calls += base.len() as u64;
+    let mut orders: Vec<(&str, Vec<usize>)> = vec![("reverse", rev), ("kind-major", by_kind)];
+    if stride_ok {
+        orders.push(("stride-37", stride));
+    }
+    for (name, ord) in &orders {
+        let r = run(ord);
+        s.calls += r.len() as u64;
+        for (j, v) in r {
+            s.evals += 1;
+            if v != base[j].1 {
+                let (i, k, l) = plan[j];
+                s.violation(
+                    format!("call-order-dependence/{}", calls[i].0.split('(').next().unwrap_or("")),
+                    format!("{} at {} {l}: {} in forward order but {v} in {name} order", calls[i].0, k.name(), base[j].1),
+                    json!({"check":"order","call":calls[i].0,"kind":k,"level":l,"order":name}),
+                );
+            }
+        }
+    }
+    // a fresh thread (fresh thread-local state) must agree too
+    let plan2 = plan.clone();
+    let fresh = std::thread::spawn(move || {
+        let calls = mk();
+        plan2.iter().map(|&(i, k, l)| (calls[i].1)(k, l)).collect::<Vec<String>>()
+    })
+    .join()
+    .unwrap();
+    for (j, v) in fresh.iter().enumerate() {
+        s.evals += 1;
+        if *v != base[j].1 {
+            let (i, k, l) = plan[j];
+            s.violation(format!("call-order-dependence/{}", calls[i].0.split('(').next().unwrap_or("")), format!("{} at {} {l}: {} here but {v} on a fresh thread", calls[i].0, k.name(), base[j].1), json!({"check":"order","call":calls[i].0,"kind":k,"level":l,"order":"fresh-thread"}));
+        }
+    }
+    s.outcome(&("order-independence", plan.len()));
+}
+
 /// streaming states beyond the t -> normal switch (and just below it)
 fn judge_large(n: usize, levels: &[f64], s: &mut Sink) {
     let pat = [1.0, 2.0, 3.0, 0.5];
@@ -359,7 +461,9 @@ fn run(tier: Tier) -> Sink {
         jobs.push(Job::Counts(n));
         jobs.push(Job::Quant(n));
     }
-    par_judge(&jobs, |j, s| match j {
+    let mut s0 = Sink::new();
+    judge_order_independence(&levels, &mut s0);
+    let s1 = par_judge(&jobs, |j, s| match j {
         Job::Large(n) => judge_large(*n, &levels, s),
         Job::Mean(x, false) => judge_mean_sample::<f64>(x, &levels, s),
         Job::Mean(x, true) => judge_mean_sample::<f32>(x, &levels, s),
@@ -376,7 +480,8 @@ fn run(tier: Tier) -> Sink {
             }
             judge_quantile(*n, 0.5, &levels, s);
         }
-    })
+    });
+    s0.merge(s1)
 }
 
 fn replay_case(case: &Value, s: &mut Sink) {
@@ -400,6 +505,7 @@ fn replay_case(case: &Value, s: &mut Sink) {
                 judge_pair_sample::<f64>(&a, &b, &levels, s)
             }
         }
+        "order" => judge_order_independence(&levels, s),
         "large" => judge_large(case["n"].as_u64().unwrap() as usize, &levels, s),
         "counts" => judge_counts(case["n"].as_u64().unwrap() as usize, case["k"].as_u64().unwrap() as usize, &levels, s),
         _ => judge_quantile(case["n"].as_u64().unwrap() as usize, case["q"].as_f64().unwrap(), &levels, s),
